@@ -182,14 +182,14 @@ def check_jitter(ctx):
         okv = jn is not None and ratform.same(v, ratform.parse(f"float({rowv}['arrival_seconds']) + {jn}"))
         ctx.ob(4, "K7", "the new arrival is the row's own arrival plus the offset", okv, f, st, construct="jittered = original + jitter", detail=f"{norm.U(v)}")
         ceq = g.control_equivalent(poolmod.stmt_of(draws[0]), st, rl)
+        # the draw happens only where the row's pipeline id differs from the current one (nested if, or guard clause with continue)
+        ds_ = poolmod.stmt_of(draws[0])
         newp = False
-        q = parent(poolmod.stmt_of(draws[0]))
-        while q is not None and q is not rl:
-            if isinstance(q, ast.If):
-                t_ = norm.nnf(q.test)
-                if t_[0] == "cmp" and t_[1] == "!=" and "pipeline_id" in (t_[2] + t_[3]) and any(poolmod.stmt_of(draws[0]) is x_ for s_ in q.body for x_ in ast.walk(s_)):
+        for S in ast.walk(rl):
+            # a statement that runs exactly when the draw runs, before it (the current-pipeline marker is typically updated in between)
+            if isinstance(S, ast.stmt) and S is not rl and (S is ds_ or (g.dominates(S, ds_) and g.control_equivalent(S, ds_, rl))):
+                if any(z[0] == "cmp" and z[1] == "!=" and "pipeline_id" in (z[2] + z[3]) for z in g.facts_at(S)):
                     newp = True
-            q = parent(q)
         ctx.ob(4, "K3", "exactly one offset is drawn per pipeline, on its first row, and applied to that row", ceq and newp, f, draws[0], construct="one draw per pipeline",
                detail=f"draw and store executed together: {ceq}; under `pipeline_id != current pipeline`: {newp}")
     # (6) collection, sort, write
@@ -254,7 +254,8 @@ def check_jitter(ctx):
 
 def check_sample(ctx):
     P = ctx.P
-    sc = P.fn(TOOLS, "sensitivity_sample_command")
+    from ..util import desugar_extend
+    sc = desugar_extend(P.fn(TOOLS, "sensitivity_sample_command"), lists=True)    # tasks = [Task(..) for i in range(n)] is the loop it abbreviates
     ctx.touch(sc)
     tasks = calls_named(sc, "SensitivityTask")
     ok = False
